@@ -503,7 +503,7 @@ func runC12(c *core.Ctx, o Options) {
 				if _, isStr := an.ConstString(pr[1]); !isStr {
 					continue
 				}
-				if f, _ := an.LoadedField(pr[0]); f != nil && f.Name() == "Type" && f.Pkg() == gen.Pkg {
+				if f, _ := an.LoadedField(pr[0]); f != nil && an.FieldName(f) == "Type" && f.Pkg() == gen.Pkg {
 					lit, _ := an.ConstString(pr[1])
 					if owner := fieldOwner(f); owner == "Field" {
 						c.Ob("g", an.NameOf(fn), "schema type name compared with the literal "+strconvQuote(lit), bo.Pos()).Fail(
